@@ -52,23 +52,27 @@ def npTransposeOk (as : List Int) (ndim : Nat) : Prop :=
 instance (as : List Int) (ndim : Nat) : Decidable (npTransposeOk as ndim) := by
   unfold npTransposeOk; infer_instance
 
-/-- `COO.reshape(shape)` up to the construction of the result: the shape it will have, or the error.
-`extra = int(self.size / np.prod([d for d in shape if d != -1]))` is a *float* division followed by a
-truncation: a zero product gives `int(nan)` (`ValueError`) for an empty array and `int(inf)`
-(`OverflowError`) otherwise; every `-1` is replaced by the same `extra`; then the size test, then the
-constructor (`SparseArray.__init__`) rejects negative extents.  (Exact for sizes below 2^53.) -/
+/-- the tail of `COO.reshape(shape)` once the unknown extent is filled in: the size test, then the constructor
+(`SparseArray.__init__`) rejects negative extents. -/
 def reshapeFinish (size : Int) (s : List Int) : Except Err (List Nat) :=
   if size ≠ iprod s then .error .value           -- "cannot reshape array of size … into shape …"
   else if s.any (· < 0) then .error .value       -- `SparseArray.__init__`: "shape must be … non-negative"
   else .ok (s.map Int.toNat)
 
+/-- `COO.reshape(shape)` up to the construction of the result: the shape it will have, or the error.  In the order of the
+code: unchanged shape → `self`; some `-1` present: more than one → `ValueError` ("can only specify one unknown
+dimension"); `known = reduce(mul, (d for d in shape if d != -1), 1)`; `known == 0 or self.size % known != 0` →
+`ValueError`; `extra = self.size // known` (Python's floor division and modulo: `Int.fdiv`, `Int.fmod`) replaces the
+`-1`; then the size test and the constructor (`reshapeFinish`).  All in integers: no float division any more. -/
 def reshapeShape (old : List Nat) (shape : List Int) : Except Err (List Nat) :=
   if old.map Int.ofNat = shape then .ok old else
   let size : Int := prod old
   if shape.any (· == -1) then
-    let p := iprod (shape.filter (· != -1))
-    if p = 0 then (if size = 0 then .error .value else .error .overflow)
-    else reshapeFinish size (shape.map fun d => if d == -1 then Int.tdiv size p else d)
+    if 1 < (shape.filter (· == -1)).length then .error .value
+    else
+      let known := iprod (shape.filter (· != -1))
+      if known = 0 ∨ Int.fmod size known ≠ 0 then .error .value
+      else reshapeFinish size (shape.map fun d => if d == -1 then Int.fdiv size known else d)
   else reshapeFinish size shape
 
 /-- NumPy's `reshape` (`_fix_unknown_dimension`): every NEGATIVE extent is an unknown one, at most one is allowed;
@@ -90,45 +94,34 @@ def npReshapeOk1 (old : List Nat) (shape : List Int) : Prop :=
   ((shape.filter (· == -1)).length = 0 ∧ iprod shape = size ∨
    (shape.filter (· == -1)).length = 1 ∧ iprod rest ≠ 0 ∧ size % iprod rest = 0)
 
-/-- the region where `COO.reshape` is stricter than NumPy: an extent below `-1` (NumPy reads it as "unknown") -/
-def ExcludedOtherNegative (shape : List Int) : Prop := ∃ d ∈ shape, d < -1
-instance (shape : List Int) : Decidable (ExcludedOtherNegative shape) := by
-  unfold ExcludedOtherNegative; infer_instance
+/-- the only region where `COO.reshape` and NumPy decide differently: an extent below `-1`.  NumPy reads every negative
+extent as "unknown"; the library knows only `-1` and rejects the others (cleanly, with `ValueError`) — stricter than NumPy,
+which the property allows. -/
+def OtherNegative (shape : List Int) : Prop := ∃ d ∈ shape, d < -1
+instance (shape : List Int) : Decidable (OtherNegative shape) := by
+  unfold OtherNegative; infer_instance
 
-/-- the region where `COO.reshape` decides differently from NumPy: more than one `-1` (each is replaced
-by the same quotient and only the total size is tested) -/
-def ExcludedSeveralUnknown (shape : List Int) : Prop := 1 < (shape.filter (· == -1)).length
-instance (shape : List Int) : Decidable (ExcludedSeveralUnknown shape) := by
-  unfold ExcludedSeveralUnknown; infer_instance
-
-/-- the region where the rejection has the wrong class: a `-1` next to a zero extent on a non-empty array
-(`int(inf)`: OverflowError) -/
-def ExcludedInfExtent (old : List Nat) (shape : List Int) : Prop :=
-  shape.any (· == -1) = true ∧ iprod (shape.filter (· != -1)) = 0 ∧ prod old ≠ 0 ∧ old.map Int.ofNat ≠ shape
-instance (old : List Nat) (shape : List Int) : Decidable (ExcludedInfExtent old shape) := by
-  unfold ExcludedInfExtent; infer_instance
-
-/-- `COO.__init__(coords, data, shape)` with a 2-d integer `coords` of shape `(rows, cols)` and 1-d `data`
-of length `n` (`dataNdim` its number of dimensions), in the order of the code:
-data rank, shape validation (`SparseArray.__init__`: non-negative integers), then — only when the
-shape is not `()` — the two length tests. -/
+/-- `COO.__init__(coords, data, shape)` with a 2-d integer `coords` of shape `(rows, cols)` and `data` with `dataNdim`
+dimensions (length `n` when 1-d), in the order of the code: a 0-d `data` is broadcast to `coords.shape[1]`; data rank;
+`shape is None`; `if shape and not self.coords.size: self.coords = np.zeros((len(shape), 0))`; shape validation
+(`SparseArray.__init__`: non-negative integers); then — for EVERY shape, `()` included — the two length tests
+(`len(self.data) != self.coords.shape[1]`, `len(self.shape) != self.coords.shape[0]`).  Every rejection is a `ValueError`. -/
 def cooCtor (rows cols : Nat) (dataNdim n : Nat) (shape : Option (List Int)) : Except Err (List Nat) :=
-  -- `data.ndim == 0` is broadcast to `coords.shape[1]`
+  -- `data.ndim == 0` is broadcast to `coords.shape[1]` (before the coordinates of an empty array are replaced)
   let n := if dataNdim = 0 then cols else n
   if dataNdim > 1 then .error .value else
   match shape with
   | none => .error .value
   | some sh =>
-    -- `if shape and not self.coords.size: self.coords = np.zeros((len(shape), 0))`
     let (rows, cols) := if sh ≠ [] ∧ rows * cols = 0 then (sh.length, 0) else (rows, cols)
     if sh.any (· < 0) then .error .value
-    else if sh = [] then .ok []
-    else if n ≠ cols then (if dataNdim = 0 then .error .type else .error .value)   -- the message calls `len(data)` on a 0-d `data`
+    else if n ≠ cols then .error .value
     else if sh.length ≠ rows then .error .value
     else .ok (sh.map Int.toNat)
 
 /-- the documented contract of the constructor for 1-d `data` of length `n`: non-negative extents, one coordinate row per axis
-and one datum per column — or no coordinates at all (`coords.size == 0`, then no data) for a shape with at least one axis -/
+and one datum per column — or no coordinates at all (`coords.size == 0`, then no data) for a shape with at least one axis
+(for the shape `()`: no coordinate rows and exactly as many data as `coords` has columns) -/
 def ctorContract (rows cols : Nat) (n : Nat) (sh : List Int) : Prop :=
   (∀ d ∈ sh, 0 ≤ d) ∧ ((rows * cols = 0 ∧ sh ≠ [] ∧ n = 0) ∨ (n = cols ∧ sh.length = rows))
 
